@@ -29,9 +29,9 @@ def the_module():
                                      Member('p', Type('PrintableString')), Member('v', Type('VisibleString', size=Cons(0, 20)))])
     mod = Module('C19', 'AUTOMATIC', T)
     vals = {
-        'Big': [dict(i=5, ci=200, b=True, e=1, r=1.5, o=(1, 2, 840, 113549), ro=(7, 8), bs=(b'\xa5\x80', 9), os=b'\x01\x02\x03', ia='hello', ut='hé', ns='12 34',
+        'Big': [dict(i=5, ci=200, b=True, e=1, r=1.5e300, o=(1, 2, 840, 113549), ro=(7, 8), bs=(b'\xa5\x80', 9), os=b'\x01\x02\x03', ia='hello', ut='hé', ns='12 34',
                      bm='AZ', un='az', tu='700101000000Z', tg='20000229120000Z', n=None, ch=('x', -7), so=[1, 2, 300], st=[9, 3, 200], d=3, ext='more'),
-                dict(i=-70000, ci=0, b=False, e=5, r=-0.0625, o=(2, 100, 3), ro=(1,), bs=(b'\xff', 8), os=b'\xfe' * 20, ia='x', ut='zz', ns='9',
+                dict(i=-70000, ci=0, b=False, e=5, r=-2.5e100, o=(2, 100, 3), ro=(1,), bs=(b'\xff', 8), os=b'\xfe' * 20, ia='x', ut='zz', ns='9',
                      bm='Q', un='U', tu='991231235959Z', tg='19851106210627.3Z', n=None, ch=('y', True), so=[], st=[255], d=6)],
         'Other': [dict(a=42, s='abc', q=[True, False]), dict(a=-1, s='', q=[])],
         'Wide': [dict(u=(1 << 64) - 1, s=-(1 << 63), p='Printable 123', v='visible'), dict(u=1, s=7, p='', v='')],
